@@ -579,14 +579,14 @@ func init() {
 	register(&Prop{
 		ID:          "C09",
 		Functions:   []string{"generated Read/Write of two schema versions (harness/c09gen old.thrift, new.thrift)", "default branch of the Read switch (Skip)", "apache thrift TBinaryProtocol.Skip (interpreted)"},
-		Bounds:      "one designed pair (old, new): new adds an optional scalar, a default struct field, a map of lists, an optional double with default, an optional struct at the root; an optional string and a list inside a nested struct (also reached through list elements and map values); a union arm; an enum member; optional bool, byte, i16, enum, binary, set and memberless-struct fields at the end of the root and a bool at the end of a nested struct (each possibly the last unknown field). All scalar leaves of the newer value symbolic (full width), presence of every added/optional member symbolic, containers of length 1 (plus unknown lists of 3, 63, 64, 65 and 130 elements at top level, inside an unknown struct and inside an unknown map under keep_unknown_fields: the codec's nesting budget is 64); chains new->old, old->new, new->old->new->old",
+		Bounds:      "one designed pair (old, new): new adds an optional scalar, a default struct field, a map of lists, an optional double with default, an optional struct at the root; an optional string and a list inside a nested struct (also reached through list elements and map values); a union arm; an enum member; optional bool, byte, i16, enum, binary, set and memberless-struct fields at the end of the root and a bool at the end of a nested struct (each possibly the last unknown field); unknown maps preceded by an unknown string of 0..9 (thorough 20) bytes and an optional list (the unknown-field store is a geometrically growing byte buffer). All scalar leaves of the newer value symbolic (full width), presence of every added/optional member symbolic, containers of length 1 (plus unknown lists of 3, 63, 64, 65 and 130 elements at top level, inside an unknown struct and inside an unknown map under keep_unknown_fields: the codec's nesting budget is 64); chains new->old, old->new, new->old->new->old",
 		Assumptions: []string{"the (old,new) pairs dimension is this one designed pair", "keep_unknown_fields round trip is checked in variant 'keep' when the reflective protocol adapter can be executed"},
 		Variants: []*Prop{
 			{Label: "default", Pkg: "zzgen/c09/all", NoOverlay: true, Diff: []string{"D_C09_1"}, Harnesses: hs, Prepare: func(r *runner) error {
 				return prepareStatic(r, "c09gen", []string{"all.thrift", "old.thrift", "new.thrift"}, "go", "", "c09/all")
 			}},
 			{Label: "keep", Pkg: "zzgen/c09/all", NoOverlay: true, Diff: []string{"D_C09_1"},
-				Harnesses: append(append([]Harness{}, hs...), Harness{Func: "H_C09_keep", Covers: []string{"end"}}, Harness{Func: "H_C09_keep_none", Covers: []string{"end"}}, Harness{Func: "H_C09_keep_kinds", Covers: []string{"end"}}, Harness{Func: "H_C09_keep_long", Quick: [][]int64{{3}, {63}, {64}, {65}, {130}}, Covers: []string{"end"}}),
+				Harnesses: append(append([]Harness{}, hs...), Harness{Func: "H_C09_keep", Covers: []string{"end"}}, Harness{Func: "H_C09_keep_none", Covers: []string{"end"}}, Harness{Func: "H_C09_keep_kinds", Covers: []string{"end"}}, Harness{Func: "H_C09_keep_fill", Quick: rng(0, 9), Thorough: rng(0, 20), Covers: []string{"end"}}, Harness{Func: "H_C09_keep_long", Quick: [][]int64{{3}, {63}, {64}, {65}, {130}}, Covers: []string{"end"}}),
 				Prepare: func(r *runner) error {
 					if err := prepareStatic(r, "c09gen", []string{"all.thrift", "old.thrift", "new.thrift"}, "go", "keep_unknown_fields", "c09/all"); err != nil {
 						return err
